@@ -15,8 +15,18 @@ EXPLANATION = (
     "vector writers/readers agree. K6: error()/checkScalar()/checkArguments() end in the mexErrMsg* family. "
     "K7: what create_object stores in the handle array (a std::shared_ptr<Class>*) is what every reader "
     "reinterprets it as before dereferencing; unwrap_shared_ptr validates before the cast and returns a "
-    "copy; create_object releases what it allocated. Numeric round-trip equality (byte order, narrowing of "
-    "sizes to int) and object lifetime over call histories are run-time facts and are not decided.")
+    "copy; create_object releases what it allocated. Object lifetime over call histories is a run-time fact and is not "
+    "decided; numeric round trips are decided under a stated platform model (see K16).")
+EXPLANATION += (
+    " K15: unwrap<string> / wrap<string> run by the analyser's interpreter over the clang AST (local buffers whose bytes start "
+    "uninitialised, mxGetString's cut at length-1 and its return code, mxArrayToString, std::string from a pointer) on character "
+    "arrays of the lengths next to every integer constant the function mentions, on a column and a matrix of characters, and on "
+    "non-character arrays, which must raise. K16: every scalar wrap<T> / unwrap<T> pair run on the boundary values of T in a "
+    "byte-level model of the arrays (LP64, little-endian; a store through (X*)mxGetData writes sizeof(X) bytes into a "
+    "zero-initialised array of the created class; mxGetScalar converts the first element to double; C++ arithmetic conversions): "
+    "unwrap<T>(wrap<T>(v)) is v, nothing outside the array is touched, and a MATLAB scalar of any numeric or logical class "
+    "arrives as its value (2^53+1 in an int64 array is not read through a double). K6 runs checkScalar on twelve shapes, N-d "
+    "ones included.")
 EXPLANATION += (
     " K8: every return of a wrap<T>/unwrap<T> specialisation hands back a value that depends (def-use closure over "
     "initialisers, assignments, element stores and memcpy-like calls in the clang AST) on the function's argument; a path "
@@ -33,6 +43,8 @@ ASSUMPTIONS = [
     "LP64 size table (the 32-bit arm of mxUINT32OR64_CLASS is analysed in the thorough tier when the "
     "toolchain can parse it)",
     "mxCreateNumeric* zero-initialises (documented), so a narrower typed store leaves defined upper bytes",
+    "K16's byte model: LP64 type sizes, little-endian byte order, two's complement; conversions of out-of-range floating values "
+    "to integers (undefined in C++) are not among the samples",
 ]
 
 
